@@ -130,7 +130,11 @@ func solveAll(jobs []solveJob, timeout time.Duration, par int, all bool) {
 			}
 			f := filepath.Join(j.dir, sanitize(o.Name)+".smt2")
 			os.WriteFile(f, []byte(q), 0o644)
-			rs := solveQuery(f, timeout, all)
+			to := timeout
+			if o.Cover && to > 3*time.Second {
+				to = 3 * time.Second
+			}
+			rs := solveQuery(f, to, all && !o.Cover)
 			o.Result, o.Solver, o.Ms = rs[0].result, rs[0].solver, rs[0].ms
 			if rs[0].result == "sat" {
 				o.Model = rs[0].out
